@@ -152,6 +152,11 @@ def OPTIONS():
         rc, out, err = P.run()
         return None if out.strip() == "1" else "program built against the header printed %r" % out
     add("header-file", [(["--header-file=H.h"], []), ([], ['header-file="H.h"'])], p_header)
+    # the header declares the API, it does not repeat the user's own section-3 code (which would be defined twice in any program
+    # that includes the header next to the scanner) - reported by a round-6 sub-agent about the unmodified tree
+    add("header-file:section3", [(["--header-file=H.h"], []), ([], ['header-file="H.h"']), (["--header-file=H.h", "-R"], [])],
+        lambda P: gen_ok(P) or ("section 3 user code is copied into the header" if "vf_sect3_helper" in (P.read("H.h") or "") else None),
+        sect3="int vf_sect3_helper(int x) { return x + 1; }\n")
 
     def p_tablesfile(P):
         e = gen_ok(P)
@@ -499,6 +504,17 @@ static const char *vin = "abX"; static int vpos, vreq;
     HMAIN = "#include <stdio.h>\nint main(void){ while (yylex() > 0) ; printf(\"%d %d %d\\n\", n_init, n_pre, n_post); return 0; }\n"
     add("hooks", [([], ['pre-action="n_pre++;"', 'post-action="n_post++; break;"', 'user-init="n_init++;"'])],
         lambda P: gen_ok(P) or tokens_main(P, b"abc\n", "1 2 2"), defs="static int n_init, n_pre, n_post;", body="abc ;\n\\n ;\n", sect3=HMAIN)
+    # "executed before the first scan (and before the scanner's internal initializations are done)": what user-init sets up - here the
+    # input file - is what the scanner then uses (round-6 seed C19-r6m3)
+    UIB = "abc return 1;\nx return 2;\n\\n return 3;\n"
+    UIMAIN = ("#include <stdio.h>\nint main(void){ int t; vf_in2 = tmpfile(); fputs(\"x\\n\", vf_in2); rewind(vf_in2);"
+              " while ((t = yylex()) > 0) printf(\"%d \", t); printf(\"end\\n\"); return 0; }\n")
+    UIMAIN_R = ("#include <stdio.h>\nint main(void){ int t; yyscan_t s; vf_in2 = tmpfile(); fputs(\"x\\n\", vf_in2); rewind(vf_in2); yylex_init(&s);"
+                " while ((t = yylex(s)) > 0) printf(\"%d \", t); printf(\"end\\n\"); yylex_destroy(s); return 0; }\n")
+    add("user-init:before-internal-init", [([], ['user-init="yyin = vf_in2;"'])], lambda P: gen_ok(P) or tokens_main(P, b"abc\n", "2 3 end"),
+        defs="#include <stdio.h>\nstatic FILE *vf_in2;", body=UIB, sect3=UIMAIN)
+    add("user-init:before-internal-init:reentrant", [([], ["reentrant", 'user-init="yyin = vf_in2;"'])], lambda P: gen_ok(P) or tokens_main(P, b"abc\n", "2 3 end"),
+        defs="#include <stdio.h>\nstatic FILE *vf_in2;", body=UIB, sect3=UIMAIN_R)
     add("hooks-or-actions", [([], ['pre-action="n_pre++;"', 'post-action="n_post++; break;"', 'user-init="n_init++;"'])],
         lambda P: gen_ok(P) or tokens_main(P, b"abcdef\n", "1 5 5"), defs="static int n_init, n_pre, n_post;", body="abc ;\nd |\ne |\nf ;\n\\n ;\n", sect3=HMAIN)
     NRMAIN = "#include <stdio.h>\n#include <string.h>\nint yyread(char *buf, size_t max){ static int done; if (done) return 0; done = 1; memcpy(buf, \"abc\", 3); return 3; }\n" + MAIN_NR
@@ -546,6 +562,10 @@ static const char *vin = "abX"; static int vpos, vreq;
     CM = ("#include <stdio.h>\nint main(void){ yyscan_t s; int t; yylex_init(&s); while ((t = yylex(s)) > 0) printf(\"%d \", t); printf(\"end\\n\");"
           " yylex_destroy(s); return 0; }\n")
     add("c99:tokens", c99(), lambda P: gen_ok(P) or tokens_main(P, b"abc\nab", "1 3 2 end"), sect3=CM)
+    add("c99:user-init:before-internal-init", c99(['user-init="yyset_in(vf_in2, yyscanner);"']), lambda P: gen_ok(P) or tokens_main(P, b"abc\n", "2 3 end"),
+        defs="#include <stdio.h>\nstatic FILE *vf_in2;", body="abc return 1;\nx return 2;\n\\n return 3;\n",
+        sect3=("#include <stdio.h>\nint main(void){ int t; yyscan_t s; vf_in2 = tmpfile(); fputs(\"x\\n\", vf_in2); rewind(vf_in2); yylex_init(&s);"
+               " while ((t = yylex(s)) > 0) printf(\"%d \", t); printf(\"end\\n\"); yylex_destroy(s); return 0; }\n"))
     add("c99:case-insensitive", c99(["case-insensitive"]) + c99((), ["-i"]), lambda P: gen_ok(P) or tokens_main(P, b"ABC\n", "1 3 end"), sect3=CM)
     add("c99:nodefault", c99(["nodefault"]) + c99((), ["-s"]), p_nodefault, body="a return 1;\n", sect3=CM)
     add("c99:full-fast", c99(["full"]) + c99(["fast"]) + c99((), ["-Cfe"]) + c99((), ["-CFa"]) + c99(["align"]) + c99(["noecs nometa-ecs"]),
